@@ -650,6 +650,17 @@ func (in *Interp) sliceOp(g *G, fr *Frame, ins *ssa.Slice) Value {
 		if x.R != nil {
 			s = x.R.(*SliceV).S
 		}
+		if n, ok := nominalLen(x); ok {
+			// a byte string kept as one opaque chunk: only the whole of it, or nothing of it, can be sliced
+			lo, hi := idx(ins.Low, 0), idx(ins.High, int64(n))
+			switch {
+			case lo == 0 && hi == int64(n):
+				return x
+			case lo == hi && lo >= 0 && lo <= int64(n):
+				return Value{K: KSlice, R: &SliceV{S: []Value{}}}
+			}
+			unsupported("slice [%d:%d] inside an opaque byte string of %d bytes", lo, hi, n)
+		}
 		lo := idx(ins.Low, 0)
 		hi := idx(ins.High, int64(len(s)))
 		mx := idx(ins.Max, int64(cap(s)))
@@ -756,6 +767,9 @@ func (in *Interp) indexAddr(g *G, fr *Frame, ins *ssa.IndexAddr) {
 	var elems []Value
 	switch x.K {
 	case KSlice:
+		if n, ok := nominalLen(x); ok {
+			unsupported("byte %d of an opaque byte string of %d bytes", i, n)
+		}
 		if x.R != nil {
 			elems = x.R.(*SliceV).S
 		}
